@@ -2,6 +2,7 @@ import PysamlModel.Model.MiniPy
 import PysamlModel.Model.Sp
 import PysamlModel.Gen.PyFuns
 import PysamlModel.Model.PyEnc
+import PysamlModel.Proofs.MiniPy
 
 /-!
 # C05: `onOrAfterOk` / `beforeOk` ARE `saml2.validate.validate_on_or_after` / `validate_before` (refinement over the regenerated MiniPy terms)
@@ -59,6 +60,146 @@ theorem validate_before_refines (now : Int) (tm : String → Int) (skew : Nat) (
       · have : Sp.beforeOk now skew (tm s) = true := by simp [Sp.beforeOk, hgt]
         simp [this, run, validate_before, defaultFuel, evalBlock, evalStmt, evalExpr, evalArgs, lookup, setVar,
           truthy, hs', timeExt, cmpVals, builtin, hgt]
+
+/-! ## `AuthnResponse.authn_statement_ok` (SessionNotOnOrAfter, number of AuthnStatements) -/
+
+theorem voa_ext (now : Int) (tm : String → Int) (ii : Bool) (so : R Val) (skew : Nat) (t : Option String) :
+    pyExt now tm ii so "validate_on_or_after" [optStr t, .int skew] =
+      (match t with
+       | none => .ok (.bool false)
+       | some s => if s = "" then .ok (.bool false)
+                   else if Sp.onOrAfterOk now skew (tm s) then .ok (.int (tm s)) else .raise "ResponseLifetimeExceed") := by
+  have h := validate_on_or_after_refines now tm skew t
+  cases t with
+  | none => simp [pyExt, optStr] at *; rw [h]; rfl
+  | some s =>
+    simp only [pyExt, optStr] at *
+    rw [h]
+    by_cases hs : s = ""
+    · simp [hs, asExt]
+    · by_cases ho : Sp.onOrAfterOk now skew (tm s) = true <;> simp [hs, ho, asExt]
+
+
+/-- The shape of the regenerated term. -/
+theorem authn_statement_ok_shape : AuthnResponse_authn_statement_ok.body = [
+    (.assign "n_authn_statements" (.call "len" [(.attr (.attr (.name "self") "assertion") "authn_statement")])),
+    (.ifs (.cmp .ne (.name "n_authn_statements") (.int (1))) [
+      (.ifs (.name "optional") [(.ret (some (.bool true)))] [(.assign "msg" .opaqueStr), (.raise "ValueError")])] []),
+    (.assign "authn_statement" (.subscript (.attr (.attr (.name "self") "assertion") "authn_statement") (.int (0)))),
+    (.ifs (.attr (.name "authn_statement") "session_not_on_or_after") [
+      (.ifs (.call "validate_on_or_after" [(.attr (.name "authn_statement") "session_not_on_or_after"), (.attr (.name "self") "timeslack")]) [
+        (.setattr "self" "session_not_on_or_after" (.call "calendar.timegm" [(.call "time_util.str_to_time" [(.attr (.name "authn_statement") "session_not_on_or_after")])]))] [
+        (.ret (some (.bool false)))])] []),
+    (.ret (some (.bool true)))] := rfl
+
+/-- **`AuthnResponse.authn_statement_ok` refines `Sp.authnStatementOk`**: for every number of AuthnStatements,
+    every lexical SessionNotOnOrAfter (absent, empty, any instant), every clock, skew and prior state, running the
+    CURRENT text of the method (with `validate_on_or_after` run from ITS current text) raises exactly when the model
+    function errs, with the class the model's error stands for, and otherwise leaves `self.session_not_on_or_after`
+    at the value the model's state has. -/
+theorem authn_statement_ok_refines (cfg : Sp.Cfg) (env : Sp.Env) (st : Sp.St) (a : Sp.Assertion) (tm : String → Int)
+    (stmts : List (Option String × Option String)) (ha : a.authn = authnOf tm stmts) :
+    match Sp.authnStatementOk cfg env st a with
+    | .ok st' => (∃ b, (runMethod Sp.pyStrip (pyExt0 env.now tm) AuthnResponse_authn_statement_ok
+          [selfAuthn (stmts.map (·.1)) cfg.skew st.sessionNooa, .bool false]).1 = .value (.bool b)) ∧
+        sessionOf (runMethod Sp.pyStrip (pyExt0 env.now tm) AuthnResponse_authn_statement_ok
+          [selfAuthn (stmts.map (·.1)) cfg.skew st.sessionNooa, .bool false]).2 = some (.int st'.sessionNooa)
+    | .error e => (runMethod Sp.pyStrip (pyExt0 env.now tm) AuthnResponse_authn_statement_ok
+          [selfAuthn (stmts.map (·.1)) cfg.skew st.sessionNooa, .bool false]).1 = .raised (errClass e) := by
+  have hv := voa_ext env.now tm true (.ok (.bool true)) cfg.skew
+  unfold Sp.authnStatementOk
+  rw [ha]
+  rcases stmts with _ | ⟨s, _ | ⟨s2, rest⟩⟩
+  · -- no statement: ValueError
+    simp only [authnOf, List.map_nil]
+    rfl
+  · -- exactly one statement
+    obtain ⟨t, idx⟩ := s
+    simp only [authnOf, List.map_cons, List.map_nil]
+    cases t with
+    | none =>
+      simp only [lexTime]
+      exact ⟨⟨true, rfl⟩, rfl⟩
+    | some x =>
+      by_cases hx : x = ""
+      · subst hx
+        simp only [lexTime, if_true]
+        exact ⟨⟨true, rfl⟩, rfl⟩
+      · have hx' : (x != "") = true := by simpa using hx
+        have hv' := hv (some x)
+        simp only [hx, if_false, optStr] at hv'
+        simp only [lexTime, hx, if_false]
+        -- the environment when the fourth statement starts
+        let selfV := selfAuthn [some x] cfg.skew st.sessionNooa
+        let env2 : Env := [("authn_statement", encStmt (some x)), ("n_authn_statements", .int 1), ("optional", .bool false), ("self", selfV)]
+        have hrun : runMethod Sp.pyStrip (pyExt0 env.now tm) AuthnResponse_authn_statement_ok [selfV, .bool false] =
+            (match (match evalStmt Sp.pyStrip (pyExt0 env.now tm) 60 env2
+                      (.ifs (.attr (.name "authn_statement") "session_not_on_or_after") [
+                        (.ifs (.call "validate_on_or_after" [(.attr (.name "authn_statement") "session_not_on_or_after"), (.attr (.name "self") "timeslack")]) [
+                          (.setattr "self" "session_not_on_or_after" (.call "calendar.timegm" [(.call "time_util.str_to_time" [(.attr (.name "authn_statement") "session_not_on_or_after")])]))] [
+                          (.ret (some (.bool false)))])] []) with
+                    | .normal e => Flow.ret (.bool true) e
+                    | other => other) with
+             | .normal e => (.value .none, lookup e "self")
+             | .ret v e => (.value v, lookup e "self")
+             | .raise c e => (.raised c, lookup e "self")
+             | .brk _ => (.stuck "break outside a loop", none)
+             | .cont _ => (.stuck "continue outside a loop", none)
+             | .stuck w => (.stuck w, none)) := rfl
+        show (match (if Sp.onOrAfterOk env.now cfg.skew (tm x) = true then
+                if (tm x != 0) = true then Except.ok { st with sessionNooa := tm x } else Except.ok st
+              else Except.error Sp.Err.expired : Except Sp.Err Sp.St) with
+          | .ok st' => (∃ b, (runMethod Sp.pyStrip (pyExt0 env.now tm) AuthnResponse_authn_statement_ok [selfV, .bool false]).1 = .value (.bool b)) ∧
+              sessionOf (runMethod Sp.pyStrip (pyExt0 env.now tm) AuthnResponse_authn_statement_ok [selfV, .bool false]).2 = some (.int st'.sessionNooa)
+          | .error e => (runMethod Sp.pyStrip (pyExt0 env.now tm) AuthnResponse_authn_statement_ok [selfV, .bool false]).1 = .raised (errClass e))
+        rw [hrun, evalStmt_ifs]
+        have hc : evalExpr Sp.pyStrip (pyExt0 env.now tm) 59 env2 (.attr (.name "authn_statement") "session_not_on_or_after") = .ok (.str x) := rfl
+        rw [hc]
+        simp only [truthy, hx', if_true]
+        rw [evalBlock_cons, evalStmt_ifs]
+        have hcall : evalExpr Sp.pyStrip (pyExt0 env.now tm) 57 env2
+            (.call "validate_on_or_after" [(.attr (.name "authn_statement") "session_not_on_or_after"), (.attr (.name "self") "timeslack")]) =
+            pyExt env.now tm true (.ok (.bool true)) "validate_on_or_after" [.str x, .int cfg.skew] := rfl
+        rw [hcall, hv']
+        by_cases ho : Sp.onOrAfterOk env.now cfg.skew (tm x) = true
+        · simp only [ho, if_true, truthy]
+          by_cases hz : tm x = 0
+          · have hz' : (tm x != 0) = false := by simpa using hz
+            simp only [hz', Bool.false_eq_true, if_false]
+            exact ⟨⟨false, rfl⟩, rfl⟩
+          · have hz' : (tm x != 0) = true := by simpa using hz
+            simp only [hz', if_true]
+            exact ⟨⟨true, rfl⟩, rfl⟩
+        · simp only [ho, if_false]
+          rfl
+  · -- two or more statements: ValueError
+    simp only [authnOf, List.map_cons]
+    let selfV := selfAuthn (s.1 :: s2.1 :: rest.map (·.1)) cfg.skew st.sessionNooa
+    let L : List Val := encStmt s.1 :: encStmt s2.1 :: (rest.map (·.1)).map encStmt
+    let env1 : Env := [("n_authn_statements", .int L.length), ("optional", .bool false), ("self", selfV)]
+    have hrun : runMethod Sp.pyStrip (pyExt0 env.now tm) AuthnResponse_authn_statement_ok [selfV, .bool false] =
+        (match (match evalStmt Sp.pyStrip (pyExt0 env.now tm) 62 env1
+                  (.ifs (.cmp .ne (.name "n_authn_statements") (.int (1))) [
+                    (.ifs (.name "optional") [(.ret (some (.bool true)))] [(.assign "msg" .opaqueStr), (.raise "ValueError")])] []) with
+                | .normal e => evalBlock Sp.pyStrip (pyExt0 env.now tm) 62 e (AuthnResponse_authn_statement_ok.body.drop 2)
+                | other => other) with
+         | .normal e => (.value .none, lookup e "self")
+         | .ret v e => (.value v, lookup e "self")
+         | .raise c e => (.raised c, lookup e "self")
+         | .brk _ => (.stuck "break outside a loop", none)
+         | .cont _ => (.stuck "continue outside a loop", none)
+         | .stuck w => (.stuck w, none)) := rfl
+    show (runMethod Sp.pyStrip (pyExt0 env.now tm) AuthnResponse_authn_statement_ok [selfV, .bool false]).1 = .raised (errClass .authnStmtCount)
+    rw [hrun, evalStmt_ifs]
+    have hc : evalExpr Sp.pyStrip (pyExt0 env.now tm) 61 env1 (.cmp .ne (.name "n_authn_statements") (.int (1))) =
+        .ok (.bool ((L.length : Int) != 1)) := rfl
+    rw [hc]
+    have hlen : ((L.length : Int) != 1) = true := by
+      have : (L.length : Int) ≠ 1 := by simp [L]; omega
+      simpa using this
+    simp only [truthy, hlen, if_true]
+    rfl
+
 
 /-! Non-vacuity: the theorems are about terms that really compute (evaluated by the kernel). -/
 example : run Sp.pyStrip (timeExt 100 (fun _ => 40)) validate_on_or_after [.str "t", .int 59] = .raised "ResponseLifetimeExceed" := by
